@@ -711,7 +711,7 @@ def obligations(tier: str) -> List[Ob]:
             stubs=tuple(stubs), outside=(OUT_SRC, OUT_UNI, OUT_RE),
             entry='one parsed sdv: resolve(symbols 1) ... resolve(symbols 2) -> primitives applied to two texts'))
 
-    a8(('equals',), True, maxlen_e=1 if quick else 2, alphabet_e='a\n')
+    a8(('equals',), True, maxlen_e=1, alphabet_e='a\n')
     a8(('matches', True, 'E'), True, minlen_e=1)
     a8(('matches', False, 'E'), True, minlen_e=1)
     a8(('every', ('and', ('U',), ('linenum', '<='))), True)
@@ -721,7 +721,7 @@ def obligations(tier: str) -> List[Ob]:
     a8(('seq', ('strip',), ('grep', 'a')), False)
     if not quick:
         a8(('any', ('contents', ('matches', True, 'E'))), True, minlen_e=1)
-        a8(('on', ('replace', False, None, 'a', 'E'), ('numlines', '==')), True, alphabet_e='b\n')
+        a8(('on', ('replace', False, None, 'a', 'E'), ('numlines', '==')), True, maxlen=1, alphabet_e='b\n')
         a8(('filter', ('contents', ('equals',))), False)
     a8(('matches', True, 'E'), True, minlen_e=1, name='seeded-oracle-error', expect=ob.REFUTE, oracle_bug=True)
 
